@@ -257,22 +257,132 @@ def admissible(rng, tier):
         else:
             N = rng.choice([511, 512, 1000, 1023, 1024, 2047, 2048, 4095, 4096]) if rng.random() < 0.7 else rng.randint(257, 4096)
         NW = rng.choice([1 + 0.5 * i for i in range(15)])
+        c2 = rng.random()
+        if c2 < 0.12:
+            # neighbourhood of the singular case 4 NW = N (class L4): N = 4 NW + 1, + 2, + 3
+            N = int(4 * NW) + rng.choice([1, 1, 2, 3])
+            if N < 8:
+                continue
+        elif c2 < 0.2:
+            NW = round(rng.uniform(1.0, 8.0), rng.choice([1, 2]))        # not a multiple of 0.5
         if not (4 * NW < N):
             continue
         K = int(2 * NW) if rng.random() < 0.5 else rng.randint(1, int(2 * NW))   # the last tapers are the delicate ones
         return N, NW, K
 
 
-def dpss_call(N, NW, K, via=None, **kw):
+def utils_mod(via=None):
     if via == 'purepy':      # the re-executed utils.py whose tridisolve is the pure-Python fallback
-        u = purepy_module()
-    else:
-        import nitime.utils as u
+        return purepy_module()
+    import nitime.utils as u
+    return u
+
+
+def dpss_call(N, NW, K, via=None, **kw):
+    u = utils_mod(via)
     import warnings
     with warnings.catch_warnings():
         warnings.simplefilter('ignore')      # the fallback divides numpy floats: a zero pivot warns instead of raising
         v, e = u.dpss_windows(N, NW, K, **kw)
     return np.asarray(v, dtype='d'), np.asarray(e, dtype='d')
+
+
+# ------------------------------------------------------------------ process histories (class L2 / L6)
+INTERP_KINDS = ['linear', 'nearest', 'zero', 'slinear', 'quadratic', 'cubic']
+
+
+def _short_len(r, N, NW, K):
+    """an admissible shorter length for interp_from (4 NW < M <= N, K <= M), or None"""
+    lo = max(int(4 * NW) + 1, K + 1, 8)
+    return r.randint(lo, N) if lo <= N else None
+
+
+def history_ops(N, NW, K, hs, M=None, kind=None):
+    """the PERTURBATION PHASE before a judged call: a deterministic (in N, NW, K, hs) list of JSON-able operations —
+    every option variant of dpss_windows / tapered_spectra with the SAME (N, NW): interp_from with every interp_kind,
+    Kmax larger / smaller / equal, Kmax as a float, NW as an int, a neighbouring NW, low_bias on and off.  Every array an
+    operation returns is overwritten in place afterwards (a caller is free to do that with what it was handed).
+    Judged call plain (M is None): an interpolated call with the judged (N, NW, K) comes first (a memo filled by the first
+    request) and, often, last (a memo overwritten by the latest request); a plain call with MORE orders and one with the same K
+    come in between (a memo that serves K <= cached orders / hands out its own buffers on a miss).
+    Judged call interpolated (M, kind given): plain calls for (N, NW, K) and (M, NW, K), the same M with other kinds, another
+    M with the same kind."""
+    import random
+    r = random.Random('hist/%d/%r/%d/%d/%r/%r' % (N, float(NW), K, hs, M, kind))
+    ops = []
+    kinds = list(INTERP_KINDS)
+    r.shuffle(kinds)
+
+    def interp(K_, kind_, M_=None):
+        m = M_ if M_ is not None else _short_len(r, N, NW, K_)
+        if m is not None:
+            ops.append(['interp', K_, m, kind_])
+    if M is None:
+        interp(K, kinds[0])
+        if K + 1 <= N:
+            ops.append(['plain', float(NW), K + 1])
+        interp(K - 1 if (K > 1 and r.random() < 0.5) else K + 1, kinds[1])
+        for NW2 in r.sample([NW + 0.5, NW - 0.5, NW + 0.25], 2):
+            if NW2 >= 0.75 and 4 * NW2 < N:
+                ops.append(['plain', float(NW2), K])
+        ops.append(['tapered', K, bool(r.random() < 0.5), r.choice([None, N, 2 * N, N // 2])])
+        ops.append(['plainf', K])                      # Kmax as a float, NW as an int when integral (the analyzers pass 2*NW-1)
+        if r.random() < 0.6:
+            ops.append(['plain', float(NW), K])
+        if r.random() < 0.7:
+            interp(K, kinds[2])
+        if r.random() < 0.3 and K > 1:
+            ops.append(['plain', float(NW), K - 1])
+    else:
+        ops.append(['plain', float(NW), K])
+        ops.append(['plain-short', M, K])
+        for k2 in kinds[:2]:
+            if k2 != kind:
+                interp(K, k2, M)
+        interp(K, kind)                                # another shorter length, same kind
+        if K > 1:
+            interp(K - 1, kind, M)
+        ops.append(['plain', float(NW), K + 1 if K + 1 <= N else K])
+        if r.random() < 0.5:
+            interp(K, kind, M)                         # the judged request itself, scribbled
+    return ops
+
+
+def run_history(ops, N, NW, via=None):
+    """execute the perturbation operations; every returned array is scribbled on; returns how many operations raised"""
+    from histories import scribble
+    import warnings
+    u = utils_mod(via)
+    raised = 0
+    with warnings.catch_warnings():
+        warnings.simplefilter('ignore')
+        for op in ops:
+            try:
+                if op[0] == 'interp':
+                    res = u.dpss_windows(N, NW, op[1], interp_from=op[2], interp_kind=op[3])
+                elif op[0] == 'plain':
+                    res = u.dpss_windows(N, op[1], op[2])
+                elif op[0] == 'plain-short':
+                    res = u.dpss_windows(op[1], NW, op[2])
+                elif op[0] == 'plainf':
+                    res = u.dpss_windows(N, int(NW) if float(NW) == int(NW) else NW, float(op[1]))
+                elif op[0] == 'tapered':
+                    s = np.random.RandomState(N + op[1]).randn(2, N)
+                    res = u.tapered_spectra(s, (NW, op[1]), NFFT=op[3], low_bias=op[2])
+                else:
+                    continue
+                scribble(res)
+            except Exception:
+                raised += 1
+    return raised
+
+
+def apply_history(m):
+    """run the history a meta / replay dict names (key 'hist'), if any"""
+    if m.get('hist') is None:
+        return
+    ops = history_ops(m['N'], m['NW'], m['K'], m['hist'], m.get('M'), m.get('interp') if 'M' in m else None)
+    run_history(ops, m['N'], m['NW'], m.get('via'))
 
 
 def cmp_cert(impl, model):
@@ -323,7 +433,13 @@ def cases(rng, tier, seed):
     # ---- dpss grid
     pts, seen = [], set()
     want = 400 if big else 40
-    for corner in [(8, 1, 2), (9, 1.5, 3), (11, 2, 4), (31, 7.5, 15), (64, 8, 16), (100, 2, 4), (33, 8, 16), (65, 4, 8), (1001, 3, 6)]:
+    # corners: smallest sizes, both parities, the zero-pivot points of the inverse iteration (the shift is an eigenvalue to
+    # working precision: (11,2), (15,3.5), (29,7), (61,2.5), (31,7.5)), N = 4 NW + 1 / + 2, NW not a multiple of 0.5
+    corners = [(8, 1, 2), (9, 1.5, 3), (11, 2, 4), (31, 7.5, 15), (64, 8, 16), (100, 2, 4), (33, 8, 16), (65, 4, 8), (1001, 3, 6),
+               (15, 3.5, 7), (29, 7, 14), (61, 2.5, 5), (17, 4, 8), (18, 4, 8), (40, 2.3, 4), (20, 4.9, 9), (12, 2.99, 5)]
+    if not big:
+        corners = corners[:9] + rng.sample(corners[9:], 5)
+    for corner in corners:
         pts.append(corner)
         seen.add(corner)
     while len(pts) < want:
@@ -333,7 +449,9 @@ def cases(rng, tier, seed):
             pts.append(p)
     import nitime.utils as u
     for (N, NW, K) in pts:
-        meta = {'kind': 'dpss', 'N': N, 'NW': NW, 'K': K}
+        # the judged call comes AFTER a perturbation phase with the same (N, NW) (class L2); the oracle and the replay redo it
+        meta = {'kind': 'dpss', 'N': N, 'NW': NW, 'K': K, 'hist': rng.randint(0, 10 ** 6)}
+        apply_history(meta)
         r = common.call(lambda: dpss_call(N, NW, K))
         if isinstance(r, str):
             out.append(Case('C07 cert %d %s %d - -' % (N, f2x(NW), K), r, 'dpss/certificates', meta=meta))
@@ -365,7 +483,13 @@ def cases(rng, tier, seed):
         # interpolation branch (linear) against the model, from the real short tapers
         if 48 <= N <= 4096 and 4 * NW < N // 2 and rng.random() < 0.5:
             M = rng.randint(max(int(4 * NW) + 1, N // 4), N - 1)
-            r3 = common.call(lambda: (dpss_call(M, NW, K), dpss_call(N, NW, K, interp_from=M)))
+            mi = dict(meta, M=M, interp='linear')
+
+            def both():
+                short = dpss_call(M, NW, K)
+                apply_history(mi)
+                return short, dpss_call(N, NW, K, interp_from=M)
+            r3 = common.call(both)
             if isinstance(r3, str):
                 out.append(Case('C07 interp %d %d %d %s -' % (M, N, K, f2x(NW)), r3, 'dpss/interp-linear', meta=dict(meta, M=M, interp='linear')))
             else:
@@ -442,14 +566,17 @@ def check_dpss(m, certs, case=None):
     """all per-run certificates for one (N, NW, K[, interp]) point; certs counts checks done"""
     from scipy.signal.windows import dpss as ref_dpss
     N, NW, K = m['N'], m['NW'], m['K']
-    rep = {k: m[k] for k in m if k in ('kind', 'N', 'NW', 'K', 'M', 'interp', 'sub', 'via')}
+    rep = {k: m[k] for k in m if k in ('kind', 'N', 'NW', 'K', 'M', 'interp', 'sub', 'via', 'hist')}
     via = m.get('via')
-    tag = 'N=%d NW=%s K=%d%s' % (N, NW, K, ' (through the pure-Python tridisolve)' if via else '')
+    tag = 'N=%d NW=%s K=%d%s%s' % (N, NW, K, ' (through the pure-Python tridisolve)' if via else '',
+                                 '' if m.get('hist') is None else ' after the call history #%d (other option values of dpss_windows / tapered_spectra '
+                                 'with the same N, NW; every returned array overwritten in place)' % m['hist'])
 
     def c(name):
         certs[name] = certs.get(name, 0) + 1
     if m.get('sub') == 'lowbias':
         import nitime.utils as u
+        apply_history(m)
         s = np.random.RandomState(N).randn(N)
         r = common.call(lambda: u.tapered_spectra(s, (NW, K), low_bias=True))
         if isinstance(r, str):
@@ -465,15 +592,37 @@ def check_dpss(m, certs, case=None):
         return None
     if 'M' in m:
         kind = m['interp']
-        r = common.call(lambda: dpss_call(N, NW, K, interp_from=m['M'], interp_kind=kind))
+        apply_history(m)
+        r = common.call(lambda: dpss_call(N, NW, K, via=via, interp_from=m['M'], interp_kind=kind))
         if isinstance(r, str):
             return fail('dpss/interp/raises', 'dpss_windows(%s, interp_from=%d, %s): %s' % (tag, m['M'], kind, r), rep, case)
         v, e = r
+        if v.shape != (K, N) or e.shape != (K,):
+            return fail('dpss/interp/shape', 'dpss_windows(%s, interp_from=%d) returned shapes %s, %s' % (tag, m['M'], v.shape, e.shape), rep, case)
         c('interp_unit_norm')
         nrm = np.sqrt((v ** 2).sum(axis=1))
         if np.abs(nrm - 1).max() > 1e-10:
             return fail('dpss/interp/unit-norm', 'interpolated tapers (%s, interp_from=%d, kind=%s) have norms %s' % (tag, m['M'], kind, nrm.tolist()[:4]), rep, case)
+        # independent reference: the reference tapers of the SHORT length, interpolated (np.interp for linear, interp1d
+        # otherwise) and rescaled; concentrations = quadratic form of the sinc kernel
+        c('interp_reference')
+        from scipy import interpolate as _ip
+        M = m['M']
+        rv = np.atleast_2d(ref_dpss(M, NW, K))
+        xs, xi = np.arange(M), np.linspace(0, M - 1, N, endpoint=False)
+        want = np.array([np.interp(xi, xs, row) if kind == 'linear' else _ip.interp1d(xs, row, kind=kind)(xi) for row in rv])
+        want = want / np.sqrt((want ** 2).sum(axis=1))[:, None]
+        dv = np.abs(v - want).max()
+        if dv > 1e-6:
+            return fail('dpss/interp/reference', 'dpss_windows(%s, interp_from=%d, kind=%s) differs from the interpolated, rescaled reference tapers of length %d by %.3g' % (
+                tag, M, kind, M, dv), rep, case)
+        if N <= 2048:
+            ce = np.einsum('ki,ij,kj->k', v, sinc_matrix(N, float(NW) / N), v)
+            if np.abs(ce - e).max() > 1e-8:
+                return fail('dpss/interp/concentration', 'dpss_windows(%s, interp_from=%d, kind=%s): returned concentrations differ from v^T Sinc_W v by %.3g' % (
+                    tag, M, kind, np.abs(ce - e).max()), rep, case)
         return None
+    apply_history(m)
     r = common.call(lambda: dpss_call(N, NW, K, via=via))
     if isinstance(r, str):
         if r == 'err ZeroDivisionError':
@@ -600,6 +749,133 @@ def robust(name, sd):
             if not np.allclose(got, ref, rtol=1e-12, atol=1e-12 * np.abs(ref).max()):
                 return bad('tapered_spectra on a %s input differs from the C-contiguous result' % lab)
         return None
+    if name == 'dpss/handed-out':
+        # class L6: what was handed out earlier still holds what it held after ANY later call; a later call is not
+        # affected by what the caller did to earlier results
+        from histories import scribble
+        keep = []                                   # (label, the arrays themselves, snapshots)
+        M = _short_len(nr, N, NW, K) if N >= 16 else None
+
+        def grab(label, thunk):
+            r = thunk()
+            keep.append((label, r, [np.array(a, copy=True) for a in r]))
+            return r
+        grab('plain', lambda: u.dpss_windows(N, NW, K))
+        if M is not None:
+            grab('interp', lambda: u.dpss_windows(N, NW, K, interp_from=M, interp_kind=str(nr.choice(INTERP_KINDS))))
+        grab('plain-more', lambda: u.dpss_windows(N, NW, K + 1))
+        grab('plain-again', lambda: u.dpss_windows(N, NW, K))
+        s_ = nr.randn(N)
+        u.tapered_spectra(s_, (NW, K), low_bias=False)
+        for label, r, snap in keep:
+            for a, b in zip(r, snap):
+                if not np.array_equal(np.asarray(a), b):
+                    return bad('the arrays returned by an earlier dpss_windows call (%s) changed after later calls (N=%d NW=%s K=%d)' % (label, N, NW, K))
+        for i, (la, ra, _) in enumerate(keep):
+            for lb_, rb, _ in keep[i + 1:]:
+                for a in ra:
+                    for b in rb:
+                        if np.shares_memory(a, b):
+                            return bad('results of two dpss_windows calls (%s, %s) share memory' % (la, lb_))
+        v0 = keep[0][2]
+        for _, r, _ in keep:
+            scribble(r)
+        v2, e2 = dpss_call(N, NW, K)
+        if not (np.array_equal(v2, v0[0]) and np.array_equal(e2, v0[1])):
+            return bad('dpss_windows(%d, %s, %d) differs from its first result after every earlier result was overwritten in place' % (N, NW, K))
+        return None
+    if name.startswith('tridi/dtype/'):
+        # class L1: operands that are not C-contiguous binary64 — a form may REFUSE them (TypeError / ValueError, operands
+        # untouched) or must return the solution of the system the operand VALUES define; never a silently wrong vector
+        form = name.split('/')[-1]
+        fn = FORMS[form]()
+        if fn is None:
+            return None
+        d, e, b = gen_system(nr, False)
+        while not pivots_ok(d, e, b) or len(e) != len(b) or len(b) < 2:
+            d, e, b = gen_system(nr, False)
+        kind = str(nr.choice(['float32', 'int32', 'int64', 'bigendian', 'readonly', 'strided', 'uint8']))
+        which = str(nr.choice(['all', 'b', 'de']))
+        ow = bool(nr.rand() < 0.5)
+        if kind in ('int32', 'int64', 'uint8'):
+            # integer-valued, diagonally dominant system
+            e = np.round(nr.uniform(1, 4, len(b)))
+            d = np.abs(e) + np.abs(np.r_[0, e[:-1]]) + np.round(nr.uniform(1, 5, len(b)))
+            b = np.round(nr.uniform(1, 20, len(b)))
+
+        def conv(a):
+            if kind == 'bigendian':
+                return a.astype('>f8')
+            if kind == 'readonly':
+                a = a.copy()
+                a.flags.writeable = False
+                return a
+            if kind == 'strided':
+                return np.repeat(a, 2)[::2]
+            return a.astype(kind)
+        dd, ee = (conv(d), conv(e)) if which in ('all', 'de') else (d.copy(), e.copy())
+        bb = conv(b) if which in ('all', 'b') else b.copy()
+        d64, e64, b64 = (np.array(a, dtype='d') for a in (dd, ee, bb))
+        ref = np.linalg.solve(np.diag(d64) + np.diag(e64[:-1], 1) + np.diag(e64[:-1], -1), b64)
+        what = '%s tridisolve on %s operands (%s, overwrite_b=%s)' % (form, kind, which, ow)
+        try:
+            import warnings
+            with warnings.catch_warnings():
+                warnings.simplefilter('ignore')
+                x = fn(dd, ee, bb, overwrite_b=ow)
+        except (TypeError, ValueError):
+            if not (np.array_equal(d64, dd) and np.array_equal(e64, ee) and np.array_equal(b64, bb)):
+                return bad(what + ' refused the operands but modified them')
+            return None
+        except Exception as ex:
+            return bad(what + ' raised ' + type(ex).__name__)
+        got = bb if ow else x
+        if got is None:
+            return bad(what + ' returned nothing')
+        tol = 1e-4 if kind == 'float32' else 1e-9
+        if not np.allclose(np.asarray(got, dtype='d'), ref, rtol=tol, atol=tol * max(1.0, np.abs(ref).max())):
+            rep['sub'] = 'wrong'
+            return Failure('robust/tridi/dtype/%s/%s-operands-wrong-solution' % (form, 'integer' if kind.startswith(('int', 'uint')) else kind),
+                           what + ' silently returns %s; the system defined by the operand values has the solution %s' % (
+                               np.asarray(got).tolist()[:4], np.round(ref, 6).tolist()[:4]), rep)
+        if not (np.array_equal(d64, dd) and np.array_equal(e64, ee)) or (not ow and not np.array_equal(b64, bb)):
+            return bad(what + ' modified its inputs')
+        return None
+    if name == 'inviter/options':
+        # class L3: tridi_inverse_iteration with x0 omitted (random start), x0 given, other rtol, read-only d / e: the result is
+        # a unit-norm eigenvector of the tridiagonal matrix for the eigenvalue nearest w; d, e untouched
+        from scipy.linalg import eigvalsh_tridiagonal
+        n = np.arange(N, dtype='d')
+        W = NW / N
+        dg = ((N - 1 - 2 * n) / 2.) ** 2 * np.cos(2 * np.pi * W)
+        od = np.zeros(N)
+        od[:-1] = n[1:] * (N - n[1:]) / 2.
+        lam = eigvalsh_tridiagonal(dg, od[:-1])[::-1]
+        k = int(nr.randint(0, K))
+        T = np.diag(dg) + np.diag(od[:-1], 1) + np.diag(od[:-1], -1)
+        d0, e0 = dg.copy(), od.copy()
+        variants = [('x0-default', {}), ('x0-given', {'x0': np.sin((k + 1) * np.linspace(0, np.pi, N))}),
+                    ('rtol', {'x0': nr.randn(N), 'rtol': float(nr.choice([1e-6, 1e-10, 1e-12]))})]
+        for lab, kw in variants:
+            dr, er = dg.copy(), od.copy()
+            if nr.rand() < 0.5:
+                dr.flags.writeable = False
+                er.flags.writeable = False
+            st = np.random.get_state()
+            np.random.seed(int(nr.randint(0, 2 ** 31 - 1)))
+            try:
+                v = u.tridi_inverse_iteration(dr, er, lam[k], **kw)
+            finally:
+                np.random.set_state(st)
+            if not (np.array_equal(dr, d0) and np.array_equal(er, e0)):
+                return bad('tridi_inverse_iteration (%s) modified d / e' % lab)
+            v = np.asarray(v, dtype='d')
+            if abs(np.linalg.norm(v) - 1) > 1e-10:
+                return bad('tridi_inverse_iteration (%s) returned a vector of norm %.6g' % (lab, np.linalg.norm(v)))
+            res = np.abs(T @ v - lam[k] * v).max()
+            if res > 1e-6 * max(1.0, np.abs(T).max()):
+                return bad('tridi_inverse_iteration (%s, N=%d NW=%s, eigenvalue #%d): |T v - w v| = %.3g' % (lab, N, NW, k, res))
+        return None
     if name.startswith('tridi/layout/'):
         form = name.split('/')[-1]
         fn = FORMS[form]()
@@ -624,7 +900,9 @@ def robust(name, sd):
     return None
 
 
-ROBUST = ['dpss/repeat', 'tapered/same-object', 'tapered/layout', 'tridi/layout/compiled', 'tridi/layout/purepy', 'tridi/layout/rebuilt']
+ROBUST = ['dpss/repeat', 'dpss/handed-out', 'inviter/options', 'tapered/same-object', 'tapered/layout', 'tridi/layout/compiled', 'tridi/layout/purepy',
+          'tridi/layout/rebuilt', 'tridi/dtype/compiled', 'tridi/dtype/purepy', 'tridi/dtype/rebuilt']
+ROBUST_REPEAT = {'tridi/dtype/compiled': 4, 'tridi/dtype/purepy': 6, 'tridi/dtype/rebuilt': 3}
 
 
 def oracle(rng, tier, seed, focus, cases_=None):
@@ -653,7 +931,7 @@ def oracle(rng, tier, seed, focus, cases_=None):
     n_fb = 0
     for key in sorted(k for k in seen_pts if k[3] is None and k[4] is None and k[0] <= (1024 if big else 300))[:(120 if big else 25)]:
         n_fb += 1
-        f = check_dpss({'kind': 'dpss', 'N': key[0], 'NW': key[1], 'K': key[2], 'via': 'purepy'}, certs)
+        f = check_dpss({'kind': 'dpss', 'N': key[0], 'NW': key[1], 'K': key[2], 'via': 'purepy', 'hist': rng.randint(0, 10 ** 6)}, certs)
         if f:
             fails.append(f)
     # interp_kind options: unit norm only (the interpolants are external)
@@ -663,12 +941,12 @@ def oracle(rng, tier, seed, focus, cases_=None):
         K = rng.randint(1, int(2 * NW))
         M = rng.randint(max(16, int(4 * NW) + 2), N - 1)
         kind = rng.choice(['linear', 'nearest', 'zero', 'slinear', 'quadratic', 'cubic'])
-        f = check_dpss({'kind': 'dpss', 'N': N, 'NW': NW, 'K': K, 'M': M, 'interp': kind}, certs)
+        f = check_dpss({'kind': 'dpss', 'N': N, 'NW': NW, 'K': K, 'M': M, 'interp': kind, 'hist': rng.randint(0, 10 ** 6)}, certs)
         if f:
             fails.append(f)
     n_rb = 0
     for name in ROBUST:
-        for i in range(6 if big else 2):
+        for i in range((6 if big else 2) * ROBUST_REPEAT.get(name, 1)):
             n_rb += 1
             sd = rng.randint(0, 10**6)
             r = common.call(lambda: robust(name, sd))
